@@ -7,7 +7,7 @@ from hypothesis import strategies as st
 from vlib.core import SubCheck, Violation, Outcome
 from vlib import tt, names, sat
 from vlib import graphs_gen as gg
-from checks.c01 import formula_class, compare, expect_indices
+from checks.c01 import formula_class, compare, expect_indices, ENV, _LARGE, _BatchOK
 
 PROPERTY = "C02"
 ASSUMPTIONS = [
@@ -50,6 +50,7 @@ def run_tseitin(case):
     if arg is not None and arg != list(charges):
         raise Violation("TseitinFormula modified its charges argument")
     nv = F.number_of_variables()
+    E = ENV(F, nv)      # the variable count, or a batch of assignments in large mode
     if nv != len(edges):
         raise Violation("Tseitin {}: {} variables for {} edges".format(case, nv, len(edges)))
     dec = names.group(names.decode(F), 'E')
@@ -59,10 +60,10 @@ def run_tseitin(case):
     else:
         ch = [bool(c) for c in charges]
     ch = (ch + [False] * n)[:n]
-    want = tt.full(nv)
+    want = tt.full(E)
     for v in range(1, n + 1):
-        x = tt.xor_all(nv, [tt.var_mask(nv, vid) for e, vid in dec.items() if v in e])
-        want &= x if ch[v - 1] else tt.neg(nv, x)
+        x = tt.xor_all(E, [tt.var_mask(E, vid) for e, vid in dec.items() if v in e])
+        want &= x if ch[v - 1] else tt.neg(E, x)
     cnt = compare(F, want, "TseitinFormula", case)
     comps = gg.components(n, edges)
     ok = all(sum(ch[v - 1] for v in comp) % 2 == 0 for comp in comps)
@@ -127,6 +128,7 @@ def run_kcolor(case):
     k, fun = case['k'], case['functional']
     F = GraphColoringFormula(gg.build_simple(g), k, functional=fun, formula_class=formula_class(case['cls']))
     nv = F.number_of_variables()
+    E = ENV(F, nv)      # the variable count, or a batch of assignments in large mode
     if nv != n * k:
         raise Violation("kcolor {}: {} variables, documented n*k={}".format(case, nv, n * k))
     labs = list(F.all_variable_labels())
@@ -134,16 +136,23 @@ def run_kcolor(case):
     for vid, lab in enumerate(labs, start=1):
         p, nums = names.parse_label(lab)
         s = str(nums[0]) if nums else ''
+        if n > 9 or k > 9:
+            # two-digit indices make the concatenated name ambiguous: documented layout, vertex-major
+            v, c = divmod(vid - 1, k)
+            if p != 'x' or s != "{}{}".format(v + 1, c + 1):
+                raise Violation("kcolor {}: variable {} is named {!r}, expected x_{{{}{}}}".format(case, vid, lab, v + 1, c + 1))
+            dec[(v + 1, c + 1)] = vid
+            continue
         if p != 'x' or len(s) != 2:
             raise Violation("kcolor {}: unexpected variable name {!r}".format(case, lab))
         dec[(int(s[0]), int(s[1]))] = vid
     expect_indices(dec, [(v, c) for v in range(1, n + 1) for c in range(1, k + 1)], "kcolor {}".format(case))
-    M = lambda key: tt.var_mask(nv, dec[key])    # noqa
-    FULL = tt.full(nv)
+    M = lambda key: tt.var_mask(E, dec[key])    # noqa
+    FULL = tt.full(E)
     want = FULL
     for v in range(1, n + 1):
         ms = [M((v, c)) for c in range(1, k + 1)]
-        want &= tt.exactly(nv, ms, 1) if fun else tt.at_least(nv, ms, 1)
+        want &= tt.exactly(E, ms, 1) if fun else tt.at_least(E, ms, 1)
     for u, v in edges:
         for c in range(1, k + 1):
             want &= FULL & ~(M((u, c)) & M((v, c)))
@@ -203,12 +212,13 @@ def run_evencolor(case):
     if odd:
         raise Violation("EvenColoringFormula {} accepted a graph with a vertex of odd degree".format(case))
     nv = F.number_of_variables()
+    E = ENV(F, nv)      # the variable count, or a batch of assignments in large mode
     dec = names.group(names.decode(F), 'e')
     expect_indices(dec, edges, "EvenColoring {}".format(case))
-    want = tt.full(nv)
+    want = tt.full(E)
     for v in range(1, n + 1):
-        ms = [tt.var_mask(nv, vid) for e, vid in dec.items() if v in e]
-        want &= tt.exactly(nv, ms, len(ms) // 2)
+        ms = [tt.var_mask(E, vid) for e, vid in dec.items() if v in e]
+        want &= tt.exactly(E, ms, len(ms) // 2)
     cnt = compare(F, want, "EvenColoringFormula", case)
     comps = gg.components(n, edges)
     ok = all(sum(1 for u, v in edges if u in comp) % 2 == 0 for comp in comps)
@@ -318,14 +328,15 @@ def run_tiling(case):
     n, edges = g['n'], [tuple(e) for e in g['edges']]
     F = Tiling(gg.build_simple(g), formula_class=formula_class(case['cls']))
     nv = F.number_of_variables()
+    E = ENV(F, nv)      # the variable count, or a batch of assignments in large mode
     if nv != n:
         raise Violation("Tiling {}: {} variables for {} vertices".format(case, nv, n))
     dec = names.group(names.decode(F), 'x')
     expect_indices(dec, [(v,) for v in range(1, n + 1)], "Tiling {}".format(case))
     N = closed_nbhd(n, edges)
-    want = tt.full(nv)
+    want = tt.full(E)
     for v in range(1, n + 1):
-        want &= tt.exactly(nv, [tt.var_mask(nv, dec[(u,)]) for u in N[v]], 1)
+        want &= tt.exactly(E, [tt.var_mask(E, dec[(u,)]) for u in N[v]], 1)
     cnt = compare(F, want, "Tiling", case)
     exp = 0
     for size in range(0, n + 1):
@@ -669,9 +680,299 @@ def strat_ramlb(draw):
     return {'graph': g, 'k': k, 's': s, 'symbreak': draw(st.booleans()), 'cls': draw(st.sampled_from(['CNF', 'OPB']))}
 
 
+# ---------------------------------------------------------------------------
+# larger instances: the same statements on sampled assignments
+
+LARGE_PRED = {}          # families whose oracle is a predicate (filled below): run in batch mode like C01's
+
+
+def _find_maps(k, pat_edges, N, E, induced, limit, R):
+    """up to `limit` injective maps [k]->[N] sending pattern edges to edges (induced: and non-edges to non-edges); plain backtracking"""
+    pe = {frozenset(e) for e in pat_edges}
+    out = []
+    order = list(range(1, N + 1))
+
+    def ok(i, u, f):
+        for j, w in f.items():
+            if w == u:
+                return False
+            inp = frozenset((i, j)) in pe
+            ing = frozenset((u, w)) in E
+            if inp and not ing:
+                return False
+            if induced and ing and not inp:
+                return False
+        return True
+
+    budget = [20000]
+
+    def rec(i, f):
+        if len(out) >= limit or budget[0] <= 0:
+            return
+        if i > k:
+            out.append(dict(f))
+            return
+        cand = list(order)
+        R.shuffle(cand)
+        for u in cand:
+            budget[0] -= 1
+            if ok(i, u, f):
+                f[i] = u
+                rec(i + 1, f)
+                del f[i]
+    rec(1, {})
+    return out
+
+
+def _is_map_ok(f, k, pat_edges, E, induced):
+    if len(set(f.values())) != k:
+        return False
+    pe = {frozenset(e) for e in pat_edges}
+    for i in range(1, k + 1):
+        for j in range(i + 1, k + 1):
+            inp = frozenset((i, j)) in pe
+            ing = frozenset((f[i], f[j])) in E
+            if inp and not ing:
+                return False
+            if induced and ing and not inp:
+                return False
+    return True
+
+
+def run_large_maps(case):
+    """clique / subgraph / isomorphism / automorphism at 10..16 vertices: candidate maps as assignments"""
+    import random as _r
+    import cnfgen
+    fam = case['family']
+    R = _r.Random(case['rseed'])
+    g = case['G']
+    N, E = g['n'], {frozenset(e) for e in g['edges']}
+    G = gg.build_simple(g)
+    if fam == 'clique':
+        k = case['k']
+        pat = [[i, j] for i in range(1, k + 1) for j in range(i + 1, k + 1)]
+        F = cnfgen.CliqueFormula(G, k, symbreak=False)
+        induced, letter, exclude_id = False, 's', False
+    elif fam == 'subgraph':
+        h = case['H']
+        k, pat = h['n'], h['edges']
+        F = cnfgen.SubgraphFormula(G, gg.build_simple(h), induced=case['induced'], symbreak=False)
+        induced, letter, exclude_id = case['induced'], 's', False
+    else:
+        h = case['H'] if fam == 'iso' else g
+        k, pat = h['n'], h['edges']
+        # x_{u,v}: vertex u of the first graph goes to v of the second; an isomorphism preserves edges both ways
+        if fam == 'iso':
+            F = cnfgen.GraphIsomorphism(gg.build_simple(h), G, nontrivial=case['nontrivial'])
+            exclude_id = case['nontrivial']
+        else:
+            F = cnfgen.GraphAutomorphism(G)
+            exclude_id = True
+        induced, letter = True, 'x'
+    nv = F.number_of_variables()
+    if nv != k * N:
+        raise Violation("{} {}: {} variables, documented {}".format(fam, case, nv, k * N))
+    dec = names.group(names.decode(F), letter)
+    expect_indices(dec, [(i, u) for i in range(1, k + 1) for u in range(1, N + 1)], "{} (large)".format(fam))
+    good = _find_maps(k, pat, N, E, induced, 8, R)
+    cands = []          # (set of true variables, expected)
+    seen_good = 0
+
+    def add_map(f):
+        nonlocal seen_good
+        okm = _is_map_ok(f, k, pat, E, induced) and not (exclude_id and all(f[i] == i for i in f))
+        seen_good += okm
+        cands.append((frozenset(dec[(i, f[i])] for i in f), okm))
+    for f in good:
+        add_map(f)
+        for _ in range(6):
+            f2 = dict(f)
+            how = R.choice(['move', 'swap', 'dup'])
+            i = R.randint(1, k) if k else 0
+            if not k:
+                break
+            if how == 'move':
+                f2[i] = R.randint(1, N)
+            elif how == 'swap':
+                j = R.randint(1, k)
+                f2[i], f2[j] = f2[j], f2[i]
+            else:
+                f2[i] = f2[R.randint(1, k)]
+            add_map(f2)
+        if k:
+            # not a function: a second image, a missing image
+            i, u = R.randint(1, k), R.randint(1, N)
+            if u != f[i]:
+                cands.append((frozenset(dec[(j, f[j])] for j in f) | {dec[(i, u)]}, False))
+            cands.append((frozenset(dec[(j, f[j])] for j in f if j != i), False))
+    if fam in ('iso', 'auto') and k == N and k:
+        add_map({i: i for i in range(1, k + 1)})
+    for _ in range(20):
+        if k and N >= k:
+            img = R.sample(range(1, N + 1), k)
+            add_map({i: img[i - 1] for i in range(1, k + 1)})
+        if k and N:
+            add_map({i: R.randint(1, N) for i in range(1, k + 1)})
+    cands.append((frozenset(), k == 0))
+    cands.append((frozenset(range(1, nv + 1)), False if nv else True))
+    B = tt.Batch(nv, [c[0] for c in cands])
+    got = tt.formula_tt(F, B)
+    for r, (row, exp) in enumerate(cands):
+        if bool((got >> r) & 1) != exp:
+            lab = list(F.all_variable_labels())
+            raise Violation("{} {}: the assignment with true variables {} is {} by the formula but {} the documented kind of map".format(
+                fam, case, [lab[v - 1] for v in sorted(row)], 'accepted' if (got >> r) & 1 else 'rejected', 'is' if exp else 'is not'))
+    labels = [fam, 'large', 'witness-present' if seen_good else 'no-witness']
+    return Outcome(labels=labels, nontrivial=nv > MAXV and len(cands) >= 20)
+
+
+def run_large_domset(case):
+    """dominating set on 10..16 vertices: for a candidate vertex set S, fixing the x variables to S leaves a satisfiable
+    formula exactly when S is dominating and has at most d elements (node-bounded DPLL on the restricted formula)"""
+    import random as _r
+    import cnfgen
+    R = _r.Random(case['rseed'])
+    g = case['G']
+    n, edges, d = g['n'], [tuple(e) for e in g['edges']], case['d']
+    F = cnfgen.DominatingSet(gg.build_simple(g), d, alternative=case['alternative'])
+    nv = F.number_of_variables()
+    if nv != n + n * d:
+        raise Violation("DominatingSet {}: {} variables, documented n+n*d={}".format(case, nv, n + n * d))
+    dec = names.group(names.decode(F), 'x')
+    expect_indices(dec, [(v,) for v in range(1, n + 1)], "DominatingSet (large)")
+    Nb = closed_nbhd(n, edges)
+    clauses = [list(c) for c in F]
+    # a greedy dominating set, then sets around it and around the size bound
+    S, left = set(), set(range(1, n + 1))
+    while left:
+        v = max(range(1, n + 1), key=lambda u: (len(Nb[u] & left), -u))
+        S.add(v)
+        left -= Nb[v]
+    cands = [set(S)]
+    for _ in range(10):
+        T = set(S)
+        for _ in range(R.choice([1, 1, 2])):
+            T.symmetric_difference_update({R.randint(1, n)})
+        cands.append(T)
+    for _ in range(6):
+        cands.append(set(R.sample(range(1, n + 1), min(n, max(0, d + R.choice([-1, 0, 0, 1]))))))
+    cands.append(set(range(1, n + 1)))
+    cands.append(set())
+    decided = 0
+    kinds = set()
+    for T in cands:
+        exp = all(Nb[v] & T for v in range(1, n + 1)) and len(T) <= d
+        units = [[dec[(v,)]] if v in T else [-dec[(v,)]] for v in range(1, n + 1)]
+        try:
+            m = sat.solve(nv, clauses + units, max_nodes=3000)
+        except sat.Budget:
+            continue
+        decided += 1
+        kinds.add('dominating' if exp else 'not-dominating-or-too-big')
+        if (m is not None) != exp:
+            raise Violation("DominatingSet {}: with the x variables fixed to the set {} the formula is {} but 'dominating of size<={}' is {}".format(
+                case, sorted(T), 'satisfiable' if m is not None else 'unsatisfiable', d, exp))
+    return Outcome(labels=['domset', 'large'] + sorted(kinds), nontrivial=nv > MAXV and decided >= 10)
+
+
+def run_large(case):
+    fam = case['family']
+    if fam == 'domset':
+        return run_large_domset(case)
+    if fam in ('clique', 'subgraph', 'iso', 'auto'):
+        return run_large_maps(case)
+    _LARGE.update(on=True, rseed=case['rseed'], env=None)
+    try:
+        try:
+            LARGE_PRED[fam](case['case'])
+        except _BatchOK as ok:
+            nm = _LARGE['env'][2] if _LARGE['env'] else 0
+            return Outcome(labels=[fam, 'large', 'models-found' if nm else 'no-model-found', 'accepted-rows' if ok.accepted else 'no-accepted-row'],
+                           nontrivial=ok.rows >= 20)
+        raise RuntimeError("harness: large mode did not reach the model comparison")
+    finally:
+        _LARGE.update(on=False, env=None)
+
+
+@st.composite
+def strat_large(draw):
+    fam = draw(st.sampled_from(['tseitin', 'kcolor', 'evencolor', 'tiling', 'clique', 'subgraph', 'iso', 'auto', 'domset']))
+    I = lambda a, b: draw(st.integers(a, b))      # noqa
+    rseed = I(0, 10 ** 6)
+    kinds = ('cnfgen', 'networkx', 'networkx-rev', 'cnfgen-grown')
+    if fam == 'tseitin':
+        g = draw(gg.simple_graphs(nmin=10, nmax=24, max_edges=60, kinds=kinds))
+        n = g['n']
+        # parity clauses are exponential in the degree: keep at most 7 edges per vertex
+        deg, keep = {}, []
+        for u, v in g['edges']:
+            if deg.get(u, 0) < 7 and deg.get(v, 0) < 7:
+                keep.append([u, v])
+                deg[u] = deg.get(u, 0) + 1
+                deg[v] = deg.get(v, 0) + 1
+        g = dict(g, edges=keep)
+        ch = draw(st.lists(st.booleans(), min_size=n, max_size=n))
+        if draw(st.booleans()) and sum(ch) % 2:
+            ch[0] = not ch[0]
+        return {'family': fam, 'rseed': rseed, 'case': {'graph': g, 'charges': ch, 'cls': 'CNF'}}
+    if fam == 'kcolor':
+        g = draw(gg.simple_graphs(nmin=8, nmax=16, max_edges=40, kinds=kinds))
+        return {'family': fam, 'rseed': rseed, 'case': {'graph': g, 'k': I(2, 11), 'functional': draw(st.booleans()), 'cls': 'CNF'}}
+    if fam == 'evencolor':
+        # an even-degree graph: a union of cycles through random vertices
+        n = I(8, 16)
+        edges = set()
+        for _ in range(I(1, 4)):
+            cyc = draw(st.permutations(list(range(1, n + 1))))[:I(3, min(n, 8))]
+            ce = [frozenset((cyc[i], cyc[(i + 1) % len(cyc)])) for i in range(len(cyc))]
+            if not (set(ce) & edges):
+                edges |= set(ce)
+        return {'family': fam, 'rseed': rseed, 'case': {'graph': {'n': n, 'edges': sorted(sorted(e) for e in edges), 'as': draw(st.sampled_from(kinds))}, 'cls': 'CNF'}}
+    if fam == 'tiling':
+        g = draw(gg.simple_graphs(nmin=23, nmax=40, max_edges=70, kinds=kinds))
+        return {'family': fam, 'rseed': rseed, 'case': {'graph': g, 'cls': 'CNF'}}
+    n = I(10, 16)
+    g = draw(gg.simple_graphs(nmin=n, nmax=n, max_edges=45, kinds=kinds))
+    E = {tuple(e) for e in g['edges']}
+    if fam == 'domset':
+        return {'family': fam, 'rseed': rseed, 'G': g, 'd': I(1, 6), 'alternative': draw(st.booleans())}
+    if fam == 'clique':
+        k = I(2, 5)
+        if draw(st.integers(0, 3)):
+            P = draw(st.permutations(list(range(1, n + 1))))[:k]
+            E |= {tuple(sorted((a, b))) for a in P for b in P if a < b}
+        g = dict(g, edges=sorted(list(e) for e in E))
+        return {'family': fam, 'rseed': rseed, 'G': g, 'k': k}
+    if fam == 'subgraph':
+        h = draw(gg.simple_graphs(nmin=2, nmax=5, kinds=('cnfgen', 'networkx')))
+        if draw(st.integers(0, 3)):
+            P = draw(st.permutations(list(range(1, n + 1))))[:h['n']]
+            E |= {tuple(sorted((P[a - 1], P[b - 1]))) for a, b in h['edges']}
+        g = dict(g, edges=sorted(list(e) for e in E))
+        return {'family': fam, 'rseed': rseed, 'G': g, 'H': h, 'induced': draw(st.booleans())}
+    if fam == 'iso':
+        P = draw(st.permutations(list(range(1, n + 1))))
+        h = {'n': n, 'edges': sorted(sorted([P[u - 1], P[v - 1]]) for u, v in g['edges']), 'as': draw(st.sampled_from(kinds))}
+        if draw(st.integers(0, 4)) == 0 and h['edges']:
+            h['edges'] = h['edges'][1:]
+        return {'family': fam, 'rseed': rseed, 'G': g, 'H': h, 'nontrivial': draw(st.booleans())}
+    # automorphism: make the graph symmetric under a swap with some probability
+    if draw(st.booleans()):
+        a, b = 1, 2
+        sw = lambda x: b if x == a else (a if x == b else x)      # noqa
+        E |= {tuple(sorted((sw(u), sw(v)))) for u, v in E}
+        g = dict(g, edges=sorted(list(e) for e in E if e[0] != e[1]))
+    return {'family': fam, 'rseed': rseed, 'G': g}
+
+
 NT = "non-trivial: >=1 variable and >=1 clause; distinct by (family, parameters, edge lists, class, object kind)"
 
+LARGE_PRED.update(tseitin=run_tseitin, kcolor=run_kcolor, evencolor=run_evencolor, tiling=run_tiling)
+
 SUBCHECKS = [
+    SubCheck('large', run_large, strategy=strat_large, quick=300, thorough=10000,
+             rule="the same families at 25-260 variables on graphs with 8..40 vertices (all object kinds): Tseitin, colouring with up to 11 colours (two-digit indices), even colouring on unions of cycles, tiling: the reference predicates on ~110 sampled assignments (DPLL models, their 1-3 flip neighbours, random, all-false/true); clique, subgraph (plain and induced), isomorphism and automorphism on 10..16 vertices (with planted witnesses): candidate maps (embeddings found by the harness's backtracking, their one-image moves, swaps, collisions, a second or a missing image, random maps) as assignments, accepted exactly when the map is a witness; dominating set: the x variables fixed to candidate sets around a greedy dominating set and around the bound, restricted formula satisfiable (node-bounded DPLL) exactly when the set is dominating and small enough; non-trivial: >22 variables and >=20 rows (>=10 decided sets)",
+             required_labels=['tseitin', 'kcolor', 'evencolor', 'tiling', 'clique', 'subgraph', 'iso', 'auto', 'domset', 'witness-present', 'no-witness', 'models-found', 'dominating']),
     SubCheck('tseitin', run_tseitin, enumerate_cases=enum_tseitin, strategy=strat_tseitin, quick=300, thorough=20000,
              rule="every labelled graph <=4 vertices x every charge vector (+ charges=None); Hypothesis graphs <=8 vertices/18 edges with short/long/integer charge vectors; oracle: model set == per-vertex parity predicate and count == 2^(|E|-|V|+c) iff every component has even charge; " + NT,
              required_labels=['sat', 'unsat', 'disconnected', 'isolated-vertex', 'short-charges', 'long-charges', 'non-bool-charges', 'default-charges', 'networkx']),
